@@ -144,6 +144,8 @@ def remove(case, ctx):
     scale = float(np.max(np.abs(c))) * len(c) + np.max(np.abs(noise)) + 1e-300
     tol = cond * 512 * eps * scale * np.sqrt(mask.size)
     marg = modes[0] if (len(modes) == 1 and case["scalar_mode"]) else modes
+    opd = gen.relayout(opd, ["C", "F", "strided", "transposed_view"][len(modes) % 4])
+    mask = gen.relayout(mask, ["C", "F", "reversed"][mask.shape[1] % 3])
     opd0 = opd.copy()
     with lentil_call("C12.remove", f"zernike_remove(modes={marg})"):
         res = np.asarray(lentil.zernike_remove(opd, mask, marg, **kw), dtype=float)
